@@ -167,6 +167,66 @@ def check_C05(tier, seed):
         ASSUME, {"checker_cmd": "tlc MC_ZkAbacus (TokenIffOpens TokenOnlyAfterRevocation) + tlc RevPair (GeneratedWellFormed FirstCanonical DecodeExact Terminates) + Trace_ZkAbacus + Trace_RevPair"})
 
 
+def check_C14(tier, seed):
+    """histories (TLC walks + random driver incl. refused replies and closes from every stage) executed on the real code;
+    the atoms of every message are validated against Trace_Atoms.tla"""
+    q = tier == "quick"
+    t0 = time.time()
+    build_harness()
+    m = tlc_model("AtomFlow", "MC_AtomFlow.cfg", workers=4, name="mc_atomflow", must_cover=["Establish", "Pay", "Lock", "Close"])
+    # spec mutant: without re-randomisation NoReuse must fail (non-vacuity of the model)
+    r = tlc("AtomFlow", "MC_AtomFlow_norerand.cfg", workers=2, name="mc_atomflow_mut")
+    if r["ok"] or r["violated"] != "NoReuse":
+        raise ToolError("AtomFlow with RERANDOMIZE = FALSE does not violate NoReuse: the model is vacuous")
+    walks = tlc_simulate_steps("MCX_ZkAbacus", "MCX_ZkAbacus_sim.cfg", 6 if q else 40, 45 if q else 70, seed, name="sim_C14")
+    lines = protodrv.scripts_from_walks(walks, SCALE_BIG)
+    rng = random.Random(seed * 7 + 3)
+    for i in range(8 if q else 60):
+        d = protodrv.RandomDriver(rng, channels=(1, 2, 3), w_fault=1.0, w_close=0.5 if i % 2 else 0.1, w_restore=0.0, w_replay=0.5, max_pays=4,
+                                  faults=["garbage", "altbal", "wrongbf", "otherkey"])
+        lines += d.run(60 if q else 110)
+    lines = [l for l in lines if l["act"] != "restore"]
+    # chosen randomness: a close whose re-randomiser is drawn as zero (one per run: the library then shows the
+    # all-identity signature, which must not have been seen before either)
+    est = [{"act": "request", "ch": 1, "cb": "50", "mb": "5"}, {"act": "minit", "ch": 1}, {"act": "deliver", "ch": 1}, {"act": "mactivate", "ch": 1}, {"act": "deliver", "ch": 1}]
+    pay = [{"act": "start", "ch": 1, "amt": "4"}, {"act": "mallow", "ch": 1}, {"act": "deliver", "ch": 1}, {"act": "mcomplete", "ch": 1}, {"act": "deliver", "ch": 1}]
+    lines += [{"act": "reset"}] + est + [{"act": "close", "ch": 1, "zero_rng": True}]
+    lines += [{"act": "reset"}] + est + pay + [{"act": "start", "ch": 1, "amt": "1"}, {"act": "close", "ch": 1, "zero_rng": True}]
+    d = os.path.join(WORK, "C14_run")
+    os.makedirs(d, exist_ok=True)
+    sp, tp, ap = os.path.join(d, "script.ndjson"), os.path.join(d, "proto.trace.ndjson"), os.path.join(d, "atoms.trace.ndjson")
+    write_script(sp, lines)
+    harness(["proto", "--script", sp, "--out", tp, "--atoms-out", ap, "--seed", seed])
+    events = [json.loads(l) for l in open(ap)]
+    v = validate_trace("Trace_Atoms", "Trace_Atoms.cfg", ap, name="trace_C14")
+    if not v["accepted"]:
+        e = events[v["matched"]]
+        seen = set()
+        for x in events[:v["matched"]]:
+            if x["ev"] == "reset": seen = set()
+            else: seen |= set(x.get("atoms", []))
+        reused = sorted((set(e.get("atoms", [])) & seen) - set(e.get("allowed", [])))
+        leaked = sorted((set(e.get("atoms", [])) & set(e.get("secrets", []))) - set(e.get("allowed", [])))
+        raise Violation("C14", f"customer message '{e.get('kind')}' on channel {e.get('ch')}: {len(reused)} atom(s) already in the merchant's view, {len(leaked)} secret scalar(s) of the customer state exposed",
+                        {"kind": "atoms", "property": "C14", "seed": seed, "script": lines, "event_index": v["matched"], "reused_atom_ids": reused[:10], "leaked_secret_ids": leaked[:10],
+                         "message_kind": e.get("kind"), "channel": e.get("ch")})
+    msgs = [e for e in events if e["ev"] == "msg"]
+    closes = sum(1 for e in msgs if e["kind"] == "close")
+    stages_closed = {json.loads(l).get("stage") for l in open(tp) if '"ev":"close"' in l}
+    cov = {"states": m["distinct"], "transitions": m["generated"], "traces_validated_against_impl": len(walks) + (8 if q else 60),
+           "evaluations": len(msgs), "distinct_nontrivial": len({(e["dir"], e["kind"], e["ch"], len(e["atoms"])) for e in msgs}),
+           "rule": "one evaluation = one message of a real protocol history (both directions; histories from TLC walks of ZkAbacus.tla and the random driver on up to 3 channels with refused replies and closes "
+                   "from every stage): every 32/48/96-byte atom interned and compared with everything the merchant saw before (earlier messages, public parameters of all merchants) and with the secret "
+                   "scalars held in the customer state when it was sent; distinct = (direction, kind, channel, number of atoms)",
+           "samples": [{k: (e[k] if k not in ("atoms", "secrets", "allowed") else len(e[k])) for k in e} for e in msgs[:6]],
+           "messages_by_kind": {k: sum(1 for e in msgs if e["kind"] == k and e["dir"] == "c2m") for k in ("establish", "pay", "lock", "close")},
+           "closing_messages": closes, "atoms_interned": max([max(e["atoms"]) for e in msgs if e["atoms"]] + [0]), "exhaustive": False,
+           "checker_cmd": "tlc AtomFlow (NoReuse; must fail with RERANDOMIZE = FALSE) + Trace_Atoms on harness histories"}
+    return write_evidence("C14", tier, seed, "model_checking", cov, time.time() - t0, 0,
+                          ["necessary condition for unlinkability only (as the property says); zero knowledge of the proofs is not decided",
+                           "equality of atoms is byte equality of their canonical encodings"])
+
+
 def check_C20(tier, seed):
     q = tier == "quick"
     c = campaign("C20", tier, seed, "MC_ZkAbacus_quick.cfg", "MCX_ZkAbacus_sim.cfg",
